@@ -160,6 +160,27 @@ theorem keyfile_base_address (C : CryptoFns) (entropy : Bytes) (ks : KeyStore) (
     ∃ kp, deriveWithIndex C 0 ks.seed = .ok kp ∧ (encrypt C ks pw salt nonce).baseAddress = kp.address :=
   keyStoreFromEntropy_base C entropy ks hks pw salt nonce
 
+/-- T4e: the members of a key file that are not bound to the password — the recorded address, the names, the version —
+    have no influence on the key store `Decrypt` returns. -/
+theorem decrypt_ignores_unauthenticated (C : CryptoFns) (kf : KeyFile) (pw a cn kd : Bytes) (v : Nat) :
+    decrypt C { kf with baseAddress := a, cipherName := cn, kdf := kd, version := v } pw = decrypt C kf pw := rfl
+
+/-- T4f: whatever address a key file records, the base address of the key store decrypted from it is the address of
+    derivation index 0 of the decrypted entropy's seed, the key store is the one of that entropy, and the key file made
+    from it again (`Encrypt` with any password / salt / nonce) records that index-0 address. -/
+theorem decrypt_base_address (C : CryptoFns) (kf : KeyFile) (pw : Bytes) (ks : KeyStore)
+    (h : decrypt C kf pw = .ok ks) (pw' salt nonce : Bytes) :
+    keyStoreFromEntropy C ks.entropy = .ok ks ∧
+    ∃ kp, deriveWithIndex C 0 ks.seed = .ok kp ∧ ks.baseAddress = kp.address ∧
+      (encrypt C ks pw' salt nonce).baseAddress = kp.address := by
+  unfold decrypt at h
+  split at h
+  · cases h
+  · rename_i e _
+    have he : ks.entropy = e := keyStoreFromEntropy_entropy C e ks h
+    obtain ⟨kp, hkp, hb⟩ := keyStoreFromEntropy_base C e ks h pw' salt nonce
+    exact ⟨by rw [he]; exact h, kp, hkp, hb, hb⟩
+
 /-- T5 `address_layout`: the address of a public key is 0x00 ‖ sha3(pk)[0:19], 20 bytes. -/
 theorem address_layout (C : Crypto) (pk : Bytes) :
     pubKeyToAddress C.toCryptoFns pk = 0 :: (C.sha3 pk).take 19 ∧ (pubKeyToAddress C.toCryptoFns pk).length = 20 := by
